@@ -63,7 +63,7 @@ def step_oracle(im, ops, i, st):
 def gen_free(rnd):
     """Attacker objects act on the nodes of a graph before / without `add_attacker` (their id is None), or while being
     registered in another graph (ids restart at 0 there): the two sides of the relation must still agree, per object."""
-    return {'nodes': rnd.randint(2, 5),
+    return {'nodes': rnd.randint(2, 5), 'twins': rnd.random() < 0.4,
             'atts': [rnd.choice(['free', 'free', 'here', 'other']) for _ in range(rnd.randint(2, 4))],
             'ops': [[rnd.choice(['compromise', 'compromise', 'undo']), None, None, rnd.choice(['attacker', 'node'])]
                     for _ in range(rnd.randint(3, 14))], 'seed': rnd.getrandbits(32)}
@@ -74,7 +74,13 @@ def run_free(sc):
     g1, g2 = AttackGraph(), AttackGraph()
     nodes = []
     for i in range(sc['nodes']):
-        n = AttackGraphNode(type='or', name=f's{i}', ttc=None); g1.add_node(n); nodes.append(n)
+        if sc.get('twins'):
+            # nodes that are not (yet) part of a graph and equal field by field (same step name on two assets of a
+            # hand-built graph): only their identity tells them apart
+            n = AttackGraphNode(type='or', name='s', ttc=None)
+        else:
+            n = AttackGraphNode(type='or', name=f's{i}', ttc=None); g1.add_node(n)
+        nodes.append(n)
     atts = []
     for j, kind in enumerate(sc['atts']):
         a = Attacker(name=f'att{j}', entry_points=[], reached_attack_steps=[])
